@@ -14,6 +14,9 @@ def main():
         print('usage: vcheck <property> --tier quick|thorough | replay <file>')
         return 2
     from lib import framework
+    if a[0] == 'selftest':
+        from lib import selftest
+        return selftest.main()
     if a[0] == 'replay-batch':
         framework.run_replay_batch(a[1])
         return 0
